@@ -1,6 +1,7 @@
 import Verif.Model.TreeDist
 import Verif.Model.Newick
 import Verif.Driver.Util
+import Verif.Model.NewickText
 namespace Verif.Driver
 open Verif.TreeDist
 
@@ -78,6 +79,21 @@ def handleTree (fs : List (List String)) : Option String :=
     match parseTree toks with
     | some (t, []) => some ("N " ++ " ".intercalate ((Verif.Newick.print t).map tokOut))
     | _ => some "bad-request"
+  | [["nwktext"], [um], cps] =>
+    -- the text as code points; output: one item per token read - L<code points> for a label, S<code point> for a structural
+    -- character, E for the end; ERR for a TreeParseError
+    let text : List Char := cps.map fun x => Char.ofNat (nat! x)
+    let shw := fun (l : List Char) => ",".intercalate (l.map fun c => toString c.toNat)
+    (match Verif.NewickText.tokenise (um == "1") text with
+     | none => some "ERR"
+     | some outs => some ("T " ++ " ".intercalate (outs.map fun o =>
+         match o with
+         | .label l => "L" ++ shw l
+         | .sym c => "S" ++ toString c.toNat
+         | .eot => "E")))
+  | [["nwkname"], cps] =>
+    let name : List Char := cps.map fun x => Char.ofNat (nat! x)
+    some ("N " ++ ",".intercalate ((Verif.NewickText.escapeName name).map fun c => toString c.toNat))
   | _ => none
 
 end Verif.Driver
